@@ -88,6 +88,9 @@ PathWellFormed(s) == LET p == ParsePath(s) IN \A i \in 1..Len(p.segs) : Len(p.se
 
 IsLeadNameChar(c) == (c >= 65 /\ c <= 90) \/ c = 95
 IsNameChar(c) == IsLeadNameChar(c) \/ (c >= 48 /\ c <= 57)
+PathInAlphabet(s) == LET p == ParsePath(s) IN
+  \A i \in 1..Len(p.segs) : /\ Len(p.segs[i]) >= 1 => IsLeadNameChar(p.segs[i][1])
+                              /\ \A j \in 2..Len(p.segs[i]) : IsNameChar(p.segs[i][j])
 \* decoder at position pos: [ok, p, n]
 NameDec(b, pos) ==
   LET root == pos + 1 <= Len(b) /\ b[pos + 1] = 92
